@@ -246,3 +246,94 @@ Proof.
   apply attrs_ok_of_wf; [|intros k _ []]. unfold span_attributes. destruct region as [r|]; [|exact W].
   apply dict_update_wf; [exact Hi|]. apply dict_put_wf; [reflexivity|exact Hr|exact W].
 Qed.
+
+(* ---- wave 3: the composed payload statement ------------------------------------------------------------------- *)
+Definition cnode_ok (n : cnode) : Prop :=
+  match n with
+  | CText s => forallb is_xml_char s = true
+  | CStart content region inline =>
+      (forall v, In v (map snd content) -> forallb is_xml_char v = true) /\
+      match region with Some r => forallb is_xml_char r = true | None => True end /\
+      (forall k v, In (k, v) inline -> valid_name k = true /\ forallb is_xml_char v = true)
+  | _ => True
+  end.
+
+(* from (style dictionary, region, inline attributes, texts) to an accepted payload, for both writers: whatever XML
+   characters occur in the texts and the values, the payload of a caption whose style nodes are balanced is
+   well-formed element content *)
+Theorem caption_payload_wellformed : forall legacy ids nodes,
+  Forall cnode_ok nodes -> balanced (map (to_pnode ids) nodes) ->
+  exists evs, content_parse (fst (caption_payload legacy ids nodes)) = Some evs.
+Proof.
+  intros legacy ids nodes F B. unfold caption_payload. apply payload_wellformed_balanced; [|exact B].
+  clear B. induction F as [|n t Hn Ht IH]; [constructor|]. cbn [map]. constructor; [|exact IH].
+  destruct n as [s| |content region inline|]; cbn [to_pnode node_ok].
+  - exact Hn.
+  - exact I.
+  - destruct Hn as (H1 & H2 & H3). apply span_attributes_ok; assumption.
+  - exact I.
+Qed.
+
+(* ---- wave 3: LegacyDFXPWriter at document level ---------------------------------------------------------------- *)
+Lemma legacy_refs_bottom : forall d r, In r (legacy_region_refs d) -> r = legacy_region.
+Proof.
+  intros d r H. unfold legacy_region_refs in H. apply in_flat_map in H. destruct H as [l [_ H]].
+  apply in_flat_map in H. destruct H as [c [_ H]]. destruct H as [<-|H]; [reflexivity|].
+  apply in_flat_map in H. destruct H as [n [_ H]]. destruct (rn_span (dn_r n)); [|destruct H].
+  unfold legacy_span_region in H. destruct (lookup (lit "region") (dn_content n)) as [x|]; [|destruct H].
+  destruct (str_eqb x legacy_region); [|destruct H]. destruct H as [<-|[]]. reflexivity.
+Qed.
+
+Theorem legacy_doc_consistent : forall d, dom_legacy d = true ->
+  let s := legacy_summarize d in
+  ok_refs (s_ids s) (s_style_ids s) (s_region_ids s) (s_style_refs s) (s_region_refs s) = 0.
+Proof.
+  intros d D. unfold dom_legacy in D. apply andb_prop in D. destruct D as [D D3]. apply andb_prop in D. destruct D as [D1 D2].
+  apply nodup_str_sound in D1. unfold legacy_summarize in *. destruct (styling (ds_styles d)) as [written head_refs] eqn:ST.
+  destruct (styling_spec _ _ _ D1 ST) as [NW HR]. cbn [s_ids s_style_ids s_region_ids s_style_refs s_region_refs] in *.
+  unfold ok_refs.
+  assert (E1 : nodup_str (written ++ [legacy_region]) = true).
+  { apply nodup_str_NoDup. apply NoDup_app_disjoint; [exact NW|repeat constructor; intros []|].
+    intros x Hx [C|[]]. subst x. apply negb_true_iff in D2.
+    assert (T : existsb (str_eqb legacy_region) written = true) by (apply existsb_str_In; exact Hx). congruence. }
+  rewrite E1. cbn [negb].
+  assert (E2 : forallb (fun r => Nat.eqb (count_str r written) 1) (head_refs ++ body_style_refs written d) = true).
+  { apply forallb_forall. intros r Hr. apply Nat.eqb_eq. apply count_str_one; [exact NW|].
+    apply in_app_iff in Hr. destruct Hr as [Hr|Hr]; [apply HR; exact Hr|eapply body_refs_written; eauto]. }
+  rewrite E2. cbn [negb].
+  assert (E3 : forallb (fun r => Nat.eqb (count_str r [legacy_region]) 1) (legacy_region_refs d) = true).
+  { apply forallb_forall. intros r Hr. apply legacy_refs_bottom in Hr. subst r. reflexivity. }
+  rewrite E3. cbn [negb].
+  assert (E4 : existsb (str_eqb legacy_region) (legacy_region_refs d) = true).
+  { apply existsb_exists in D3. destruct D3 as [l [Hl Hc]]. apply existsb_str_In. unfold legacy_region_refs.
+    apply in_flat_map. exists l. split; [exact Hl|]. destruct (dl_caps l) as [|c t]; [discriminate|].
+    cbn [flat_map]. left. reflexivity. }
+  cbn [forallb]. rewrite E4. reflexivity.
+Qed.
+
+(* ---- wave 3: the legacy writer's span / p attributes ----------------------------------------------------------- *)
+Lemma recreate_style_no_region : forall content ids, ~ In (lit "region") (map fst (recreate_style content ids)).
+Proof.
+  intros content ids. unfold recreate_style.
+  destruct (lookup (lit "class") content) as [c|]; [destruct (existsb (str_eqb c) ids)|];
+  destruct (lookup (lit "text-align") content) as [v2|];
+  destruct (lookup (lit "italics") content) as [[|v3a v3]|];
+  destruct (lookup (lit "font-family") content) as [v4|];
+  destruct (lookup (lit "font-size") content) as [v5|];
+  destruct (lookup (lit "color") content) as [v6|];
+  destruct (lookup (lit "display-align") content) as [v7|];
+  cbn [app map fst In]; intros H; repeat (destruct H as [H|H]; [discriminate|]); exact H.
+Qed.
+
+Theorem legacy_recreate_style_attrs_ok : forall content ids rids,
+  (forall v, In v (map snd content) -> forallb is_xml_char v = true) ->
+  attrs_ok (legacy_recreate_style content ids rids) [].
+Proof.
+  intros content ids rids H. pose proof (attrs_ok_wf _ _ (recreate_style_attrs_ok content ids H)) as W.
+  apply attrs_ok_of_wf; [|intros k _ []]. unfold legacy_recreate_style.
+  destruct (lookup (lit "region") content) as [r|] eqn:L; [|exact W].
+  destruct (existsb (str_eqb r) rids); [|exact W]. destruct W as [N V]. split.
+  - cbn [app map fst]. constructor; [apply recreate_style_no_region|exact N].
+  - intros k v [E|Hk]; [|apply V; exact Hk]. inversion E; subst. split; [reflexivity|].
+    apply H. eapply lookup_in. exact L.
+Qed.
